@@ -325,6 +325,13 @@ BTree_newBucket(BTree *self)
         depend on any custom bucket type having the same layout at the
         C level.
     */
+#ifdef BTREES_VERIF
+    if (verif_alloc_should_fail()) {
+        Py_DECREF(factory);
+        PyErr_NoMemory();
+        return NULL;
+    }
+#endif
     result = SIZED(PyObject_CallObject(factory, NULL));
     Py_DECREF(factory);
     return result;
@@ -400,6 +407,12 @@ BTree_split_root(BTree *self, int noval)
     BTreeItem *d;
 
     /* Create a child BTree, and a new data vector for self. */
+#ifdef BTREES_VERIF
+    if (verif_alloc_should_fail()) {
+        PyErr_NoMemory();
+        return -1;
+    }
+#endif
     child = BTREE(PyObject_CallObject(OBJECT(Py_TYPE(self)), NULL));
     if (!child)
         return -1;
@@ -479,6 +492,12 @@ BTree_grow(BTree *self, int index, int noval)
         d = self->data + index;
         v = d->child;
         /* Create a new object of the same type as the target value */
+#ifdef BTREES_VERIF
+        if (verif_alloc_should_fail()) {
+            PyErr_NoMemory();
+            return -1;
+        }
+#endif
         e = (Sized *)PyObject_CallObject((PyObject *)Py_TYPE(v), NULL);
         if (e == NULL)
             return -1;
